@@ -191,6 +191,69 @@ def retune_case(rep, prop: str, r: dict) -> None:
             return
 
 
+TOGGLES = ["Aperture", "BlockingScreen", "Cavity", "Screen"]
+
+
+def toggle_probe(ctx, prop: str, n: int) -> None:
+    """anything remembered about a segment's elements (skippability, merged maps): a segment whose elements are all
+    mergeable is tracked, then one element is switched on (an aperture or screen activated, a cavity given a voltage) —
+    or the other way round — and the same segment object is tracked again: the result is the one of a freshly built
+    segment in the final configuration (survival, charges, energy, coordinates)"""
+    rep, rng = ctx.report, ctx.rng
+    for i in range(n):
+        r = {"kind": "toggle", "what": TOGGLES[i % len(TOGGLES)], "on_first": bool(i // len(TOGGLES) % 2), "nested": bool(rng.random() < 0.5),
+             "L": float(E.pick(rng, 0.3, 0.7, 1.2)), "k1": float(E.pick(rng, 1.5, -2.0, 0.0)), "V": float(E.pick(rng, 2e6, 8e6)),
+             "phase": float(E.pick(rng, 0.0, 30.0)), "xmax": float(E.pick(rng, 2e-5, 1e-4)), "energy": float(E.energy(rng)),
+             "particles": LT.gen_particles(rng, 8).tolist()}
+        rep.fals_cases += 1
+        rep.count("toggle:" + r["what"])
+        rep.case(("toggle", r["what"], r["on_first"], r["nested"]), None)
+        toggle_case(rep, prop, r)
+
+
+def toggle_case(rep, prop: str, r: dict) -> None:
+    En, P, what = r["energy"], np.array(r["particles"], dtype=float), r["what"]
+    t = lambda v: torch.tensor(v, dtype=F64)  # noqa: E731
+
+    def build(on: bool):
+        if what == "Aperture":
+            x = cheetah.Aperture(x_max=t(r["xmax"]), y_max=t(r["xmax"]), shape="rectangular", is_active=on, name="x", dtype=F64)
+        elif what in ("BlockingScreen", "Screen"):
+            x = cheetah.Screen(resolution=(20, 20), pixel_size=t([1e-4, 1e-4]), is_blocking=what == "BlockingScreen", is_active=on,
+                               name="x", dtype=F64)
+        else:
+            x = cheetah.Cavity(length=t(r["L"]), voltage=t(r["V"] if on else 0.0), phase=t(r["phase"]), frequency=t(1.3e9), name="x", dtype=F64)
+        core = [cheetah.Quadrupole(length=t(0.2), k1=t(r["k1"]), name="q", dtype=F64), x]
+        mid = [cheetah.Segment(core, name="cell")] if r["nested"] else core
+        return cheetah.Segment([cheetah.Drift(length=t(r["L"]), name="d1", dtype=F64)] + mid + [cheetah.Drift(length=t(0.4), name="d2", dtype=F64)], name="line")
+
+    def switch(seg, on: bool):
+        x = seg.cell.x if r["nested"] else seg.x
+        if what == "Cavity":
+            x.voltage = t(r["V"] if on else 0.0)
+        else:
+            x.is_active = on
+    for bt in ("ParticleBeam", "ParameterBeam"):
+        mk = lambda: LT.particle_beam(P, En) if bt == "ParticleBeam" else LT.parameter_beam_from(P, En)  # noqa: E731
+        seg = build(r["on_first"])
+        try:
+            seg.track(mk())
+            _ = seg.is_skippable
+            switch(seg, not r["on_first"])
+            got = seg.track(mk())
+            want = build(not r["on_first"]).track(mk())
+        except Exception as ex:  # noqa: BLE001
+            rep.count(f"toggle:rejected:{type(ex).__name__}")
+            continue
+        diff = LT.beams_differ(got, want, rtol=1e-11)
+        if diff is not None:
+            rep.fail("falsifier", f"{prop}|Segment|{what} switched {'off' if r['on_first'] else 'on'} after a track|{bt}",
+                     f"a segment was tracked, its {what} was switched {'off' if r['on_first'] else 'on'} and the segment tracked again ({bt}"
+                     f"{', element in a nested segment' if r['nested'] else ''}): differs from a freshly built segment in that configuration: {diff}",
+                     dict(r, beam=bt))
+            return
+
+
 DIAG = ["Marker", "BPM", "ActiveBPM", "Screen", "ActiveScreen", "BlockingScreen", "OpenAperture", "InactiveAperture"]
 
 
